@@ -19,6 +19,11 @@ def _sigma(streams, params):
 def run(prop, seed, params):
     from . import gen
 
+    if prop == "C13" and core.derive(seed, "half") % 100 < params.get("asm_half", 50):
+        from .. import asmsim
+
+        return asmsim.run(prop, seed, params)
+
     streams = core.Streams(seed)
     params = dict(params)
     sigma = _sigma(streams, params)
@@ -32,6 +37,10 @@ def run(prop, seed, params):
 
 
 def replay(prop, scenario, params):
+    if scenario.get("kind") == "asm":
+        from .. import asmsim
+
+        return asmsim.replay(prop, scenario, params)
     return execute(prop, scenario, params, streams=None)
 
 
@@ -751,6 +760,17 @@ def execute_generic(prop, scenario, params, streams=None):
                 validate.validate(world, sess.pre_blocks, failure=True, pre_symbol_refs=None)
                 stats["failed_sessions"] += 1
                 break
+            if prop == "C13" and sess.error is not None and sess.desc.get("faults"):
+                kinds = set((sess.desc["faults"].get("callback") or {}).values())
+                want = {"undef": "UndefSymbolError", "redef": "MultipleDefinitionsError"}
+                got = type(sess.error).__name__
+                exp = {want[k] for k in kinds if k in want}
+                stats["fault.expected_assembler_error"] += 1
+                if got not in exp:
+                    raise core.Violation("C13", "wrong-error", {"fault": sorted(kinds), "got": got, "message": str(sess.error)[:200]}, {"kind": sorted(kinds)[0] if kinds else None, "got": got})
+                break
+            if prop == "C13" and sess.error is None and sess.desc.get("faults") and any(k in ("undef", "redef") for k in (sess.desc["faults"].get("callback") or {}).values()) and sum(sess.fired.values()):
+                raise core.Violation("C13", "wrong-error", {"fault": sess.desc["faults"], "got": "no error"}, {"kind": "missing", "got": "none"})
             if sess.error is not None and type(sess.error).__name__ == "PaddingError":
                 # documented failure: the ABI's nop does not fit into the
                 # padding an alignment requirement asks for (4-byte nops)
@@ -803,6 +823,10 @@ def _normalize(msg):
 
 
 def describe(scenario):
+    if scenario.get("kind") == "asm":
+        from .. import asmsim
+
+        return asmsim.describe(scenario)
     m = scenario["module"]
     return {
         "isa": m["isa"],
@@ -859,6 +883,11 @@ def _patch_str(p):
 
 def shrink_candidates(prop, scenario):
     """Smaller scenarios, most aggressive first."""
+    if scenario.get("kind") == "asm":
+        from .. import asmsim
+
+        yield from asmsim.shrink_candidates(prop, scenario)
+        return
     sc = scenario
     # drop trailing sessions / whole sessions
     for i in reversed(range(len(sc["sessions"]))):
